@@ -147,6 +147,7 @@ impl WorldSpec {
 			let mut ov = nd.fee_estimator.target_override.lock().unwrap();
 			ov.insert(lightning::chain::chaininterface::ConfirmationTarget::MinAllowedAnchorChannelRemoteFee, 253);
 			ov.insert(lightning::chain::chaininterface::ConfirmationTarget::MinAllowedNonAnchorChannelRemoteFee, 253);
+			ov.insert(lightning::chain::chaininterface::ConfirmationTarget::ChannelCloseMinimum, 253);
 		}
 		let mut sim = Sim::new(w);
 		if self.ctype != CType::Static {
@@ -275,26 +276,32 @@ pub fn amt_strategy() -> impl Strategy<Value = Amt> + Clone {
 }
 
 pub fn op_strategy(w: OpWeights) -> impl Strategy<Value = Op> + Clone {
-	prop_oneof![
-		w.send => (any::<u16>(), amt_strategy()).prop_map(|(route, amt)| Op::Send { route, amt }),
-		w.claim => any::<u16>().prop_map(|pay| Op::Claim { pay }),
-		w.fail => any::<u16>().prop_map(|pay| Op::FailBack { pay }),
-		w.deliver => (any::<u16>(), 1u8..6).prop_map(|(link, k)| Op::Deliver { link, k }),
-		w.flush => Just(Op::Flush),
-		w.events => any::<u16>().prop_map(|node| Op::Events { node }),
-		w.forwards => any::<u16>().prop_map(|node| Op::Forwards { node }),
-		w.disconnect => any::<u16>().prop_map(|pair| Op::Disconnect { pair }),
-		w.reconnect => any::<u16>().prop_map(|pair| Op::Reconnect { pair }),
-		w.setfee => (any::<u16>(), prop_oneof![253u32..2_000, 253u32..20_000]).prop_map(|(node, rate)| Op::SetFee { node, rate }),
-		w.timer => any::<u16>().prop_map(|node| Op::Timer { node }),
-		w.async_toggle => (any::<u16>(), any::<u16>(), proptest::bool::weighted(0.7)).prop_map(|(node, chan, on)| Op::Async { node, chan, on }),
-		w.complete => prop_oneof![
-			(any::<u16>(), any::<u16>()).prop_map(|(node, which)| Op::Complete { node, which }),
-			any::<u16>().prop_map(|node| Op::CompleteAll { node }),
-			any::<u16>().prop_map(|node| Op::FlushDeferred { node }),
-		],
-		w.pump => Just(Op::Pump),
-	]
+	let mut v: Vec<(u32, BoxedStrategy<Op>)> = vec![
+		(w.send, (any::<u16>(), amt_strategy()).prop_map(|(route, amt)| Op::Send { route, amt }).boxed()),
+		(w.claim, any::<u16>().prop_map(|pay| Op::Claim { pay }).boxed()),
+		(w.fail, any::<u16>().prop_map(|pay| Op::FailBack { pay }).boxed()),
+		(w.deliver, (any::<u16>(), 1u8..6).prop_map(|(link, k)| Op::Deliver { link, k }).boxed()),
+		(w.flush, Just(Op::Flush).boxed()),
+		(w.events, any::<u16>().prop_map(|node| Op::Events { node }).boxed()),
+		(w.forwards, any::<u16>().prop_map(|node| Op::Forwards { node }).boxed()),
+		(w.disconnect, any::<u16>().prop_map(|pair| Op::Disconnect { pair }).boxed()),
+		(w.reconnect, any::<u16>().prop_map(|pair| Op::Reconnect { pair }).boxed()),
+		(w.setfee, (any::<u16>(), prop_oneof![253u32..2_000, 253u32..20_000]).prop_map(|(node, rate)| Op::SetFee { node, rate }).boxed()),
+		(w.timer, any::<u16>().prop_map(|node| Op::Timer { node }).boxed()),
+		(w.async_toggle, (any::<u16>(), any::<u16>(), proptest::bool::weighted(0.7)).prop_map(|(node, chan, on)| Op::Async { node, chan, on }).boxed()),
+		(
+			w.complete,
+			prop_oneof![
+				(any::<u16>(), any::<u16>()).prop_map(|(node, which)| Op::Complete { node, which }),
+				any::<u16>().prop_map(|node| Op::CompleteAll { node }),
+				any::<u16>().prop_map(|node| Op::FlushDeferred { node }),
+			]
+			.boxed(),
+		),
+		(w.pump, Just(Op::Pump).boxed()),
+	];
+	v.retain(|(w, _)| *w > 0);
+	proptest::strategy::Union::new_weighted(v)
 }
 
 /// Resolve an amount class against the live channel state. Returns None if nothing can be sent.
